@@ -572,6 +572,7 @@ rfbCloseClient(rfbClientPtr cl)
 	if (cl->sslctx)
 	    rfbssl_destroy(cl);
 	free(cl->wspath);
+	cl->wspath = NULL;
 #endif
       }
 #if defined(LIBVNCSERVER_HAVE_LIBPTHREAD) || defined(LIBVNCSERVER_HAVE_WIN32THREADS)
